@@ -198,6 +198,25 @@ theorem globals_visible_when_not_shadowed (g ctx : Env) (k : Bytes) (h : ∀ kv 
 caller's context of maps, lists, structs, pointers and scalars is) the resolver computes exactly the
 fold of the step functions over the path. -/
 
+/-- **Names set by tags shadow context keys (and globals)**: when the current context binds `name`
+    privately — by `set`, `with`, `for`, a macro parameter, `import` — a path starting with `name`
+    is resolved from that binding alone: the caller's context and the set's globals (`fr.pub`) do
+    not occur in what is computed. -/
+theorem tag_binding_shadows_context (T : LexTables) (cfg : SetCfg) (g : Env) (fuel : Nat) (name : Bytes) (steps : List Part)
+    (σ : ES) (fr : Frame) (frames : List Frame) (v : Val) (hσ : σ.frames = fr :: frames)
+    (hpriv : fr.priv.lookup name = some v) :
+    (resolve T cfg g (fuel + 1) (.ident name none :: steps)).run σ =
+      ((afterPart T cfg g fuel v false none true >>= fun r =>
+          match r with
+          | none => pure (mkV .nil)
+          | some (w, safe) => resolveRest T cfg g fuel steps w safe) : XM V).run σ := by
+  rw [resolve]
+  have hc : (cur : XM Frame).run σ = .ok fr σ := by
+    simp [cur, EStateM.run, bind, EStateM.bind, get, getThe, MonadStateOf.get, EStateM.get, hσ, pure, EStateM.pure]
+  rw [run_bind_ok hc]
+  simp only [hpriv, Part.callArgs]
+  rfl
+
 /-- **A dotted name denotes the value obtained by following its steps through the context**:
     `name.s1.s2…` with `name` a context entry of plain data, for paths of any length — the value at
     the end of the path; the empty value from the first missing key, out-of-range index or nil on;
